@@ -226,4 +226,55 @@ theorem lts_all_created_ended (c : SCfg) (ls : List Label) (hc : Clean (accept c
 example : Cuke.SchedCons.Clean (accept C05.rcfg C05.rlog) = true ∧ Cuke.SchedRetry.ents (accept C05.rcfg C05.rlog) = [] ∧
     (Cuke.SchedCons.runG C05.rcfg C05.rlog ({}, ([], []))).2 = ([1, 1], [1, 1]) := by decide +kernel
 
+/-! ## finitely many attempts, whatever the schedule -/
+
+/-- all scenario ids of the catalog -/
+def allScens (c : SCfg) : List Nat := c.feats.flatMap Cuke.SchedSeq.scenIds
+
+open Cuke.SchedSeq Cuke.SchedCount Cuke.SchedRetry in
+/-- **The work of a run is bounded before it starts.** If every scenario of the catalog resolves to a retry budget of at
+    most `N`, then in every run that is clean in both acceptor layers — however the parser delays its features, in whatever
+    order attempts complete, whatever fails — at most `(number of scenarios) * (N + 1)` attempts are ever dispatched: every
+    dispatched attempt is a different (scenario, `current`) pair with `current ≤ N` of a scenario of the catalog
+    (`C05.lts_dispatches_distinct`, `C05.lts_dispatched_within_budget`). Together with `lts_exit_only_when_done` and the
+    no-busy-spin lemmas this is the termination argument: finitely many attempts, each consumed once, and an idle loop that
+    always suspends. -/
+theorem lts_total_attempts_bounded (c : SCfg) (hwf : WF c) (ls : List Label) (hc : NClean (acceptN c ls) = true) (N : Nat)
+    (hbud : ∀ ft ∈ c.feats, ∀ e0 ∈ newEntries c ft, ∀ o0, e0.ret = some o0 → o0.retries.left ≤ N) :
+    (dispatched c ls).length ≤ (allScens c).length * (N + 1) := by
+  have hnd := Cuke.C05.lts_dispatches_distinct c hwf ls hc
+  have hsub : dispatched c ls ⊆ (allScens c).flatMap (fun x => (List.range (N + 1)).map (fun k => (x, k))) := by
+    intro p hp
+    obtain ⟨x, k⟩ := p
+    have hk := Cuke.C05.lts_dispatched_within_budget c ls hc x k N hp (fun ft hft e0 he0 _ o0 ho => hbud ft hft e0 he0 o0 ho)
+    rcases dispatched_from_batch c ls _ (x, k) hp with h | ⟨pre, suf, hsplit, e, he, hsc⟩
+    · cases h
+    · subst hsplit
+      have hcp : NClean (acceptN c pre) = true := by
+        have : acceptN c (pre ++ suf) = suf.foldl (stepN c) (acceptN c pre) := by simp [acceptN, foldl_append]
+        rw [this] at hc
+        exact nclean_foldl_mono c suf _ hc
+      have hg : GoodRQ (accept c pre) = true := by
+        simp only [NClean, Bool.and_eq_true] at hcp
+        have := hcp.1
+        rw [acceptN_base] at this
+        exact (SchedCons.clean_good _ (SchedOrd.clean0_all _ this).2.2).2
+      have hbase : (pre.foldl (stepN c) {}).base = accept c pre := acceptN_base c pre
+      rw [hbase] at he
+      have hr : RInv c (accept c pre) := foldl_rinv c pre {} (Cuke.SchedFin.rinv_init c) hg
+      obtain ⟨ft, hft, hxs⟩ := Cuke.SchedFin.owner c hwf _ hr e (by simp only [ents, mem_append]; exact Or.inl (Or.inr he))
+      have hx : e.key.scen = x := by simpa [sc] using congrArg Prod.fst hsc
+      simp only [mem_flatMap, mem_map, mem_range, allScens]
+      refine ⟨x, ⟨ft, (feat?_spec c _ ft hft).1, hx ▸ hxs⟩, k, by omega, rfl⟩
+  have hlen := hnd.length_le_of_subset hsub
+  have hcount : ((allScens c).flatMap (fun x => (List.range (N + 1)).map (fun k => (x, k)))).length = (allScens c).length * (N + 1) := by
+    induction allScens c with
+    | nil => simp
+    | cons a l ih => simp only [flatMap_cons, length_append, length_map, length_range, ih, length_cons]; rw [Nat.add_mul]; omega
+  omega
+
+/-- non-vacuity: one scenario with a budget of 2: at most 3 attempts; the example run dispatches 2 -/
+example : (Cuke.SchedCount.dispatched Cuke.C05.rcfg Cuke.C05.rlog).length = 2 ∧ (allScens Cuke.C05.rcfg).length * (2 + 1) = 3 := by
+  decide +kernel
+
 end Cuke.C04
